@@ -1,6 +1,7 @@
 import Dbg.Model.Export
 import Dbg.Spec.C03
 import Dbg.Lemmas.GraphSym
+import Dbg.Lemmas.GInvCompress
 /-! # C20 — Exports and persistence are faithful
 
 Proved for the model of the GFA export (after the repair of D6): every `L` record written for a node is one of the
@@ -187,6 +188,19 @@ theorem gfa_links_complete_ginv (g : G D) (hg : GInv g) (all : List GfaLink) (h 
     · exact absurd h2 (hnu nu h1)
   subst e1; subst e2
   exact gfa_links_complete_of_back g all h u d' v s' f es hu hv he hm ⟨es', f', he', hm'⟩
+
+/-- **GFA completeness for built graphs.** In the export of any graph `compress_kmers` builds from a well-formed
+    reciprocal table, every adjacency between nodes of more than one k-mer is written (exactly once, with
+    `gfa_no_duplicate`). -/
+theorem gfa_complete_of_compress {T : Compress.Table D} {K : Nat} {st : Bool} {join : D → D → Bool} (reduce : D → D → D)
+    (wf : Compress.WF T K st) (hes2 : Filter.ExtSym2 T st) (hj : ∀ a b, join a b = join b a)
+    (out : List (Node D × List Nat)) (ho : Compress.compressKmersC T st join reduce = some out)
+    (all : List GfaLink) (h : allLinks (⟨K, out.map (·.1), st⟩ : G D) = some all)
+    (u : Nat) (d : Dir) (v : Nat) (s : Dir) (f : Bool) (es : List Edge)
+    (he : findEdges (⟨K, out.map (·.1), st⟩ : G D) u d = some es) (hm : (v, s, f) ∈ es)
+    (hnu : ∀ nu, (out.map (·.1))[u]? = some nu → nu.seq.length ≠ K) (hnv : ¬ PalNode (⟨K, out.map (·.1), st⟩ : G D) v) :
+    Listed all u d v s :=
+  gfa_links_complete_ginv _ (Compress.compress_ginv reduce wf hes2 hj out ho) all h u d v s f es he hm hnu hnv
 
 /-- two records name the same pair of ports -/
 def SamePorts (a b : GfaLink) : Prop :=
